@@ -18,6 +18,10 @@ Bad(r) ==
   ELSE (IF r.after.rid = "?" \/ r.after.off < 0 THEN {"C17_ResumePositionLost"} ELSE {})
        \cup (IF r.after.rid # "?" /\ r.after.off >= 0 /\ r.after.off < r.before.off THEN {"C17_ResumePositionWentBack"} ELSE {})
        \cup (IF r.after.rid # "?" /\ r.after.off >= r.before.off /\ r.after.db # r.before.db THEN {"C17_ResumeDatabaseChanged"} ELSE {})
+       \* the replay went on and stored a later position (wrote), then started once more (later): what the interrupted
+       \* operation left on the target must not outvote it
+       \cup (IF r.wrote >= 0 /\ (r.later.rid = "?" \/ r.later.off < r.wrote) THEN {"C17_ResumePositionWentBack"} ELSE {})
+       \cup (IF r.wrote >= 0 /\ r.later.rid # "?" /\ r.later.off >= r.wrote /\ r.later.db # r.after.db THEN {"C17_ResumeDatabaseChanged"} ELSE {})
 
 Init == l = 1
 Next == /\ l <= Len(Trace) /\ l' = l + 1
